@@ -29,5 +29,5 @@ def run(ctx):
                 "at least one accidental / is a malformed string / is an out-of-range int" % n_rand)
     ctx.nontrivial = lambda r: any(len(v) > 1 for v in r["in"].values() if isinstance(v, list)) or \
         (isinstance(r["in"].get("i"), int) and not 0 <= r["in"]["i"] <= 11)
-    recs = ctx.execute("c01", cases)
+    recs = ctx.execute("c01", cases, orders=2)
     ctx.validate("Trace_C01", recs, driver="c01")
